@@ -497,3 +497,25 @@ int __wrap_nanosleep(const struct timespec *a, struct timespec *b)
 	vs_after();
 	return 0;
 }
+
+/* ---------------- additions for blocking I/O (harness/vsched/vs_io.c) ----------------
+ * A thread that waits for I/O stays ST_RUN and re-polls when scheduled.  When its re-poll
+ * finds nothing and no other thread is runnable, nothing can ever make the descriptor ready:
+ * vs_io reports that as a deadlock.  Pure additions; nothing above uses them. */
+int vs_others_runnable(void)
+{
+	for (int i = 0; i < NT; i++) if (i != me && T[i].state == ST_RUN) return 1;
+	return 0;
+}
+void vs_io_deadlock(const char *what)
+{
+	printf("DEADLOCK");
+	for (int i = 0; i < NT; i++) {
+		if (i == me) printf(" T%d:%s", i, what);
+		else if (T[i].state == ST_BLOCKED) printf(" T%d:%s", i,
+			T[i].wkind == W_FUTEX ? "futex" : T[i].wkind == W_MUTEX ? "mutex" : "cv");
+	}
+	printf("\n");
+	finish_run(1);
+	if (me >= 0) park_forever();
+}
